@@ -88,7 +88,29 @@ pub fn case(seed: u64, st: &mut Stats) {
     o.defaults = true;
     o.required = false;
     o.max_subs = 2;
-    let spec = conv_cmd(&mut rng, &o);
+    let mut spec = conv_cmd(&mut rng, &o);
+    // with the generated `help` subcommand switched off, `help` is an ordinary subcommand name
+    if rng.chance(1, 8) {
+        fn rename(rng: &mut Rng, c: &mut CmdSpec) -> bool {
+            if !c.subs.is_empty() && rng.coin() {
+                let i = rng.below(c.subs.len());
+                if !c.subs.iter().any(|s| s.name == "help" || s.aliases.iter().any(|(a, _)| a == "help")) {
+                    c.subs[i].name = "help".into();
+                    return true;
+                }
+            }
+            for s in c.subs.iter_mut() {
+                if rename(rng, s) {
+                    return true;
+                }
+            }
+            false
+        }
+        if rename(&mut rng, &mut spec) {
+            spec.set(Setting::DisableHelpSubcommand);
+            st.count("spec.user-defined-help-subcommand");
+        }
+    }
     let cmd = match gate(&spec) {
         Ok(c) => c,
         Err(p) => {
